@@ -538,6 +538,15 @@ func c10net(rep *vh.Report, seed uint64, idx int) {
 					if pr.Chance(1, 8) {
 						w = append([]byte(nil), w...)
 						w[12] ^= 0x10 // wrong checksum, one frame per datagram
+					} else if pr.Chance(1, 8) {
+						// a valid frame, a frame with a wrong checksum and another valid frame in ONE datagram: the damaged one is rejected
+						// input, the two others travelled together and are both delivered (or the datagram was lost: neither)
+						uid2 := uid | 1<<41
+						bad := append([]byte(nil), uidFrame(uid|1<<42, byte(i), 5, false, nil, 0)...)
+						bad[12] ^= 0x10
+						w = append(append(append([]byte(nil), w...), bad...), uidFrame(uid2, byte(i), 5, false, nil, 0)...)
+						pe.want = append(pe.want, uid, uid2)
+						pe.pairs = append(pe.pairs, [2]uint64{uid, uid2})
 					} else if pr.Chance(1, 6) {
 						// two whole frames in one datagram (294 bytes)
 						uid2 := uid | 1<<40
@@ -662,7 +671,7 @@ func c10net(rep *vh.Report, seed uint64, idx int) {
 			}
 			for _, pr := range pe.pairs {
 				if have[pr[0]] != have[pr[1]] {
-					rep.Violation("what=lost ep=udp", "of two valid frames that arrived in one datagram (294 bytes) only one produced a frame event", pe.label)
+					rep.Violation("what=lost ep=udp", "of two valid frames that arrived in one datagram only one produced a frame event", pe.label)
 					break
 				}
 			}
@@ -951,6 +960,15 @@ func c10clients(rep *vh.Report, seed uint64, idx int) {
 				w[len(w)-1] ^= 0x10 // wrong checksum
 			case 1:
 				w = []byte{1, 2, 3, 4, 5} // junk datagram
+			case 3:
+				// valid + wrong checksum + valid in one datagram: the two valid ones travelled together
+				uid2 := uint64(tag)<<48 | 1<<41 | uint64(i+1)
+				bad := append([]byte(nil), uidFrame(uint64(tag)<<48|1<<42|uint64(i+1), byte(i), 5, false, nil, 0)...)
+				bad[len(bad)-1] ^= 0x10
+				w = append(append(append([]byte(nil), uidFrame(uid, byte(i), 5, false, nil, 0)...), bad...), uidFrame(uid2, byte(i), 5, false, nil, 0)...)
+				want = append(want, uid, uid2)
+				pairs = append(pairs, [2]uint64{uid, uid2})
+				rep.Count("datagrams_with_a_damaged_frame_between_valid_ones", 1)
 			case 2:
 				// several whole frames in one datagram, 294 bytes in all (a datagram may carry up to the reader's 512)
 				uid2 := uint64(tag)<<48 | 1<<40 | uint64(i+1)
@@ -1052,7 +1070,7 @@ func c10clients(rep *vh.Report, seed uint64, idx int) {
 		}
 		for _, pr := range x.pairs {
 			if have[pr[0]] != have[pr[1]] {
-				rep.Violation("what=lost ep="+x.kind, "of two valid frames that arrived in one datagram (294 bytes) only one produced a frame event", wit)
+				rep.Violation("what=lost ep="+x.kind, "of two valid frames that arrived in one datagram only one produced a frame event", wit)
 				break
 			}
 		}
